@@ -21,7 +21,7 @@ theorem famOf_loc_len {S : List SubnetDecl} (h : SubsWF S) :
   · cases hl
   · cases hl
 
-/-- **rearrange_lpm, table form**: for the subnets of one map satisfying W0–W3, `Rearrange()`
+/-- **rearrange_lpm, table form**: for the subnets of one map satisfying W0, W1, W3, `Rearrange()`
 succeeds, its table is well formed (in particular: pairwise distinct database keys), and the
 predecessor of `(a, req)` carries exactly the answer of `Spec.lpm` — for every address `a < 2^128`
 and prefix length `req < 256` such that `a` is masked to `req` -/
